@@ -31,10 +31,27 @@ func init() {
 		{Fn: "icmpDriver.getRTTFromRelSeq", Lean: "getRTTFromRelSeq"},
 		{Fn: "nextEchoID", Lean: "nextEchoID"},
 	}})
+	registerLogic(logicUnit{Name: "LogicUdp", Dir: "udp", Targets: []logicTarget{
+		{Fn: "udpDriver.handleProbeLayers", Lean: "handleProbeLayers"},
+	}})
+	registerLogic(logicUnit{Name: "LogicTcp", Dir: "tcp", Targets: []logicTarget{
+		{Fn: "tcpDriver.handleProbeLayers", Lean: "handleProbeLayers"},
+		{Fn: "tcpDriver.getNextPacketIDAndSeqNum", Lean: "getNextPacketIDAndSeqNum"},
+	}})
+	registerLogic(logicUnit{Name: "LogicSack", Dir: "sack", Targets: []logicTarget{
+		{Fn: "sackDriver.handleProbeLayers", Lean: "handleProbeLayers"},
+		{Fn: "sackDriver.getRTTFromRelSeq", Lean: "getRTTFromRelSeq"},
+	}})
+	registerLogic(logicUnit{Name: "LogicRunner", Dir: "traceroute", Targets: []logicTarget{
+		{Fn: "performTCPFallback", Lean: "performTCPFallback"},
+		{Fn: "runE2eProbeOnce", Lean: "runE2eProbeOnce"},
+	}})
 	registerLogic(logicUnit{Name: "LogicPackets", Dir: "packets", Targets: []logicTarget{
 		{Fn: "AllocPacketID", Lean: "AllocPacketID"},
 		{Fn: "stripEthernetHeader", Lean: "stripEthernetHeader"},
 		{Fn: "ReadAndParse", Lean: "ReadAndParse"},
+		{Fn: "FrameParser.IsTTLExceeded", Lean: "IsTTLExceeded"},
+		{Fn: "FrameParser.IsDestinationUnreachable", Lean: "IsDestinationUnreachable"},
 	}})
 	registerLogic(logicUnit{Name: "LogicCommon", Dir: "common", Targets: []logicTarget{
 		{Fn: "TracerouteParams.validate", Lean: "validate"},
